@@ -650,3 +650,72 @@ func isTransformNSrc(v ssa.Value, d int) bool {
 	}
 	return false
 }
+
+// ---------------------------------------------------------------------------
+// C02-R11: a parser's "partial" answer over several candidates accumulates.
+//
+// parseFunctionKey looks at every key of the table; the answer "more input could
+// still complete a key" must be true if that holds for ANY key.  An assignment
+// that overwrites the flag for every key makes the answer depend on which key
+// the (randomly ordered) map yields last, and a sequence split across reads is
+// then taken apart.  The value returned as "partial" may only be built from the
+// constants false/true, or from a test made where the flag is known to be false.
+// ---------------------------------------------------------------------------
+
+func c02PartialAccumulates(c *Ctx, p *Prog, pi *parserInfo) {
+	fn := pi.fn
+	loops := loopsOf(fn)
+	for _, r := range returnsOf(fn) {
+		if len(r.Results) != 2 {
+			continue
+		}
+		if comp, ok := constBool(r.Results[1]); !ok || comp {
+			continue
+		}
+		root, ok := r.Results[0].(*ssa.Phi)
+		if !ok {
+			continue
+		}
+		// only accumulators: phis that live in a loop header
+		if _, isHdr := loops[root.Block()]; !isHdr {
+			continue
+		}
+		closure := map[*ssa.Phi]bool{}
+		var collect func(x *ssa.Phi)
+		collect = func(x *ssa.Phi) {
+			if closure[x] {
+				return
+			}
+			closure[x] = true
+			for _, e := range x.Edges {
+				if y, ok := e.(*ssa.Phi); ok {
+					collect(y)
+				}
+			}
+		}
+		collect(root)
+		bad := ""
+		for x := range closure {
+			for i, e := range x.Edges {
+				if _, ok := e.(*ssa.Phi); ok {
+					continue
+				}
+				if _, ok := constBool(e); ok {
+					continue
+				}
+				// a computed value: fine only where the accumulator is known to be false
+				pred := x.Block().Preds[i]
+				knownFalse := false
+				for _, g := range rawGuardsAt(pred) {
+					if ph, ok := g.Cond.(*ssa.Phi); ok && closure[ph] && !g.Positive {
+						knownFalse = true
+					}
+				}
+				if !knownFalse {
+					bad += fmt.Sprintf("the flag is overwritten with %s (edge from block %d, %s); ", valName(e), pred.Index, p.pos(firstPos(pred)))
+				}
+			}
+		}
+		c.Check(bad == "", "C02-R11", fn.Name()+":partial-accumulates", p.pos(r.Pos()), "the partial answer over all candidates is only ever raised, never overwritten "+bad)
+	}
+}
